@@ -180,12 +180,16 @@ func genConfig(prop string, rng *rand.Rand) cfgT {
 		if core.Chance(rng, 1, 4) {
 			perSender()
 		}
-	default: // C01-C03: mostly plain
+	case "C03":
 		if core.Chance(rng, 1, 5) {
 			perSender()
 		}
 		if core.Chance(rng, 1, 6) {
 			evict()
+		}
+	default: // C01, C02: no eviction, so that a change of eviction order (C07) does not reach these checks
+		if core.Chance(rng, 1, 5) {
+			perSender()
 		}
 	}
 	return c
@@ -399,10 +403,14 @@ func (comp) Exhaustive(prop string, tier string, yield func(*core.History)) {
 			{numBytes: 1 << 28, bytesPerSender: 300, count: 1 << 20, countPerSender: 2, batch: 1, chunks: 1},
 			{evict: true, numBytes: 250, bytesPerSender: 1 << 24, count: 4, countPerSender: 1 << 20, batch: 1, chunks: 4},
 		}
-		if base == "C04" {
+		variant := ""
+		if i := strings.IndexByte(prop, ':'); i >= 0 {
+			variant = prop[i+1:]
+		}
+		if base == "C04" || ((base == "C05" || base == "C06") && variant != "evict") {
 			cfgs = cfgs[:1]
 		}
-		if base == "C07" {
+		if base == "C07" || variant == "evict" {
 			cfgs = cfgs[1:]
 		}
 		small := []*txSpec{alpha[0], alpha[1], alpha[2], alpha[4], alpha[5], alpha[9]}
